@@ -3,8 +3,8 @@
    function of two oracles:
 
      code : worker -> Z      the exit code the worker will have once terminated
-                             (0 normal; raise => 1; os._exit(k) => k; killed by
-                             signal s => -s)
+                             (0 normal; raise => 1; os._exit(k) => k mod 256; killed by
+                             signal s => -s: see exit_code_of)
      dur  : worker -> nat    the number of polls (calls of winnow) after its start
                              at which the worker is still found running.
 
